@@ -136,8 +136,20 @@ func (in *Interp) Call(name string, args map[string]Value) (res Result, err erro
 		}
 		return res, nil
 	}
+	before := ""
+	if fu.Effect().Pure() && in.Monitors {
+		before = in.stateDump()
+	}
 	fr := &frame{fn: fu, locals: map[t.ID]Value{}, args: am}
 	v := in.execFunc(fr)
+	if before != "" {
+		// C10: a method declared pure leaves the receiver bit-for-bit unchanged
+		if after := in.stateDump(); after != before {
+			in.Viol = append(in.Viol, Violation{Prop: "C10", Kind: "pure-method-wrote-receiver", Func: name,
+				Msg: fmt.Sprintf("the pure method %s changed the receiver: before {%s} after {%s}", name, before, after)})
+			return Result{Aborted: "C10/pure-method-wrote-receiver in " + name}, nil
+		}
+	}
 	switch v.K {
 	case KNum:
 		res.HasValue, res.Value = true, v.N
@@ -163,6 +175,40 @@ func (p *Program) Getters() []string {
 		}
 	}
 	return out
+}
+
+// stateDump renders every field of the object (all array elements).
+func (in *Interp) stateDump() string {
+	var names []string
+	byName := map[string]Value{}
+	for k, v := range in.Obj.Fields {
+		n := in.str(k)
+		names = append(names, n)
+		byName[n] = v
+	}
+	sort.Strings(names)
+	var sb []byte
+	var dump func(v Value)
+	dump = func(v Value) {
+		switch v.K {
+		case KArray:
+			sb = append(sb, '[')
+			for _, e := range v.Elems {
+				dump(e)
+				sb = append(sb, ' ')
+			}
+			sb = append(sb, ']')
+		default:
+			sb = append(sb, v.String()...)
+		}
+	}
+	for _, n := range names {
+		sb = append(sb, n...)
+		sb = append(sb, '=')
+		dump(byName[n])
+		sb = append(sb, ' ')
+	}
+	return string(sb)
 }
 
 // FieldNames lists the struct's fields (sorted) for diagnostics.
